@@ -391,6 +391,8 @@ def gen_round(rng, tier, force=None):
             lo.append(F(rng.randint(-10 ** 12, 10 ** 12) if big else rng.randint(-20, 20)))
     else:
         regime = rng.choice(["dyadic", "dyadic", "scale", "extreme"])
+        if force.get("geo"):
+            regime = "dyadic"
         if regime == "extreme":        # tiny / huge magnitudes: any absolute tolerance or narrow dtype shows
             regime = "dyadic"
             sc = F(2) ** rng.choice([-200, -120, -60, 60, 120, 300])
@@ -416,6 +418,8 @@ def gen_round(rng, tier, force=None):
     tf = None
     if rng.random() < 0.5:
         tf = rng.choice(["1/1000000000", "1/1000", "1/2", S(1e-9), S(1e-6), S(3e-12), "int:0", "int:1", S(1e-12)])
+    if force.get("geo") and rng.random() < 0.7:
+        tf = rng.choice([None, None, S(1e-9), S(1e-6)])
     eff_dims = dims if dims is not None else (["x", "y", "z"][:nd] if nd <= 3 else [f"x{i}" for i in range(nd)])
     letters = [d for d in eff_dims if len(d) == 1 and d == d.lower()]
     bc = rng.choice(["", "", "neumann", "dirichlet", "Neumann", "DIRICHLET", "pbc", "pbc", "pbc"])
@@ -680,8 +684,8 @@ def gen_ops(rng, rc):
     geometric = rc["regime"] == "dyadic" and rc["ck"] == "f" and max(abs(F(x)) for x in rc["lo"]) < 2 ** 20 \
         and min(F(x) for x in rc["cell"]) > F(1, 2 ** 20)
     for _ in range(rng.randint(1, 3)):
-        kind = rng.choice(["translate", "scale", "rot", "array", "array", "valid", "valid", "unit", "vdims", "bc",
-                           "drop-subs", "reverse-subs"])
+        kind = rng.choice(["translate", "translate", "scale", "scale", "rot", "rot", "rot", "array", "array", "valid",
+                           "valid", "unit", "vdims", "bc", "drop-subs", "reverse-subs"])
         via = "region" if (not rc["subs"] and rng.random() < 0.4) else "mesh"
         if kind == "translate":
             if rc["ck"] == "i":
@@ -744,6 +748,9 @@ def generate(rng, tier):
     while want > 0 and tries < 20 * nround:
         tries += 1
         force = forced[tries % len(forced)] if tries % 3 == 0 else None
+        with_ops = rng.random() < 0.35
+        if with_ops and force is None and rng.random() < 0.6:
+            force = dict(ck="f", geo=True)            # recipes on which translate / scale / rotate90 are exact enough
         rc = gen_round(rng, tier, force)
         if rc["unit"] == "None":
             rc["limit"].append("unit-is-the-marker")
@@ -753,7 +760,7 @@ def generate(rng, tier):
         if np.dtype(rc["dtype"]).kind in "iu" and np.dtype(rc["dtype"]).itemsize == 8 and rng.random() < 0.3:
             rc["limit"].append("int-beyond-2**53")
         # flows: used-then-changed in place, re-used read-back object, file written twice, twin field
-        if rng.random() < 0.35:
+        if with_ops:
             rc["ops"] = gen_ops(rng, rc)
         if rng.random() < 0.15:
             rc["generation"] = 2
@@ -1242,8 +1249,8 @@ def run_legacy(rc):
                 rec["oracle"].append("legacy-values")
             if not all(s1["valid"]):
                 rec["oracle"].append("legacy-valid")
-            want = [] if side is None else [(s["name"], s["pmin"], s["pmax"]) for s in side]
-            if [(s["name"], s["pmin"], s["pmax"]) for s in s1["subs"]] != want:
+            want = [] if side is None else sorted((s["name"], s["pmin"], s["pmax"]) for s in side)
+            if sorted((s["name"], s["pmin"], s["pmax"]) for s in s1["subs"]) != want:
                 rec["oracle"].append("legacy-subregions")
     else:
         coq_back = "None"
